@@ -71,6 +71,21 @@ CHECKS = {
              'counts decodes to identical bits; deterministic detection data identical in memory vs forced streaming.',
         note=TB + ' OBSERVABLE_INCLUDE Pauli targets and --ran_without_feedback are not exercised here (the latter belongs to C13).',
         design='§4 C04'),
+    'C03': dict(
+        technique='Coq proofs (generated reverse-tracker obligations, adjointness for a core gate set, probability algebra over Q) + '
+                  'oracle correspondence: characteristic functions of the DEM vs the specification with fault variables',
+        text='Proof: (G) every unitary undo_* routine of SparseUnsignedRevFrameTracker and its dispatch is regenerated from source and '
+             'proved to be the unsigned action of the table\'s inverse gate; adjoint (backward sensitivity = forward fault propagation, '
+             'any circuit over H/CX/M/R, any n); xor_convolution_merge, conv_comm, depolarize1_independent over Q. Tie O: one symbolic '
+             'run of the specification with a fault variable per elementary fault gives every channel outcome\'s symptom set; the '
+             'implementation\'s model must define the same joint distribution, compared through E[(-1)^(s.x)] on all unit vectors, '
+             'pairs and random vectors (exact to 1e-7; with approximate_disjoint_errors within the first-order bound 2*P^2 per '
+             'approximated channel); rejections (non-deterministic detector/observable, channels needing the approximation, '
+             'over-mixing) must match the specification; options fold_loops / allow_gauge_detectors / approximate_disjoint_errors.',
+        note=TB + ' The analyzer\'s bookkeeping (add_error_combinations, gauge removal, unreversed) is not modelled in Coq; adjointness '
+                  'is proved for H/CX/M/R only (per-gate steps for the full set are the generated obligations). Distribution equality is '
+                  'a randomized identity test over test vectors.',
+        design='§4 C03'),
 }
 
 PENDING = 'check not yet built in this round (see DESIGN.md §7 phasing); the Coq model for it is planned, not claimed'
